@@ -22,8 +22,8 @@ SEC = 10**9
 
 def gen_sem_case(rng, cid):
     mx = rng.choice([1, 1, 2, 2, 3, 4, 5, 8])
-    fam = rng.choice(["block", "block", "timeout", "timeout", "race"])
-    tmo = 0 if fam == "block" else rng.choice([20000, 25000, 30000])
+    fam = rng.choice(["block", "block", "timeout", "timeout", "race", "nocancel", "nocancel"])
+    tmo = 0 if fam in ("block", "nocancel") else rng.choice([20000, 25000, 30000])
     ops = []
     st = {"nxt": 0, "started": 0}
     running = set()
@@ -60,6 +60,35 @@ def gen_sem_case(rng, cid):
                     running.add(st["started"])
                     st["started"] += 1
                     waiting -= 1
+    elif fam == "nocancel":
+        # limiter WITHOUT timeout, full; callers queue with contexts that are already cancelled, get
+        # cancelled while queued, or expire while queued: they must stay queued (the time given to a
+        # wrong implementation to let them through only matters for catching it, not for the verdict)
+        while len(running) < mx:
+            start_run()
+        waiting = 0
+        to_cancel = []
+        for _ in range(rng.randint(1, 4)):
+            kind = rng.choice(["cancelled", "cancel", "deadline"])
+            ops.append({"op": "start", "i": st["nxt"], "expect": "block", "ctx": kind, "us": rng.choice([200, 1000, 3000])})
+            if kind == "cancel":
+                to_cancel.append(st["nxt"])
+            st["nxt"] += 1
+            waiting += 1
+        for w in to_cancel:
+            ops.append({"op": "cancel", "i": w})
+        ops.append({"op": "sleep", "us": 6000})
+        for _ in range(rng.randint(1, 6)):
+            if not running:
+                break
+            k = rng.choice(sorted(running))
+            ops.append({"op": "finish", "k": k, "out": rng.choice("OEP")})   # a Release that must not block
+            running.discard(k)
+            if waiting > 0:
+                ops.append({"op": "await_starts", "k": st["started"] + 1})   # a queued caller gets that permit
+                running.add(st["started"])
+                st["started"] += 1
+                waiting -= 1
     elif fam == "timeout":
         for _ in range(rng.randint(1, 2)):
             while len(running) < mx:
@@ -89,18 +118,18 @@ def gen_sem_case(rng, cid):
 
 def gen_free_case(rng, cid, quick):
     """A time-out or a cancellation racing with a send that can succeed (free or just freed slot)."""
-    mode = rng.choice(["t1ns", "t1ns", "precancelled", "precancelled", "concancel", "wake", "wake"])
+    mode = rng.choice(["t1ns", "t1ns", "precancelled", "precancelled", "concancel", "wake", "wake", "ntcancel", "ntcancel"])
     mx = rng.choice([1, 2, 3, 5])
-    via = "acquire" if mode == "wake" else rng.choice(["acquire", "handler"])
+    via = "acquire" if mode in ("wake", "ntcancel") else rng.choice(["acquire", "handler"])
     if mode == "t1ns":
         n = rng.randint(300, 500)
-    elif mode == "wake":
+    elif mode in ("wake", "ntcancel"):
         n = rng.randint(12, 30) if quick else rng.randint(30, 80)
     else:
         n = rng.randint(100, 300)
     return {"id": cid, "kind": "free", "max": mx, "mode": mode, "via": via, "n": n,
-            "hold": 0 if mode == "wake" else rng.randint(0, mx - 1),
-            "timeout_ns": {"t1ns": 1, "wake": 10**9}.get(mode, 50 * 10**6)}
+            "hold": 0 if mode in ("wake", "ntcancel") else rng.randint(0, mx - 1),
+            "timeout_ns": {"t1ns": 1, "wake": 10**9, "ntcancel": 0}.get(mode, 50 * 10**6)}
 
 
 POW2 = [512, 256, 128, 64]
@@ -211,6 +240,8 @@ def sem_model_line(case, obs):
             evs.append("R%d" % e["i"])
         elif e["e"] == "D" and e["o"] == "T":
             evs.append("T%d" % e["i"])
+        elif e["e"] == "C":
+            evs.append("C%d" % e["i"])
     return "sem %d %d %d %s" % (case["max"], case["timeout_us"], n, " ".join(evs)), n
 
 
@@ -357,6 +388,8 @@ def free_oracle(case, obs):
     cnt = 0
     for k, st in enumerate(obs["steps"]):
         before = cnt
+        if st.get("err") == "timeout" and case["timeout_ns"] <= 0:
+            return ("sem:timeout-unconfigured", "call %d returned ErrTimeout but the limiter has no timeout" % k)
         if st["op"] == "acq":
             if st["err"] == "nil":
                 cnt += 1
@@ -378,6 +411,10 @@ def free_oracle(case, obs):
                 return ("sem:timeout-kept-permit", "call %d (%s, mode %s) returned ErrTimeout but ConcurrentRequests() is %d where %d "
                         "permits are accounted for: the timed-out call took a permit that nobody will release"
                         % (k, st["op"], case["mode"], st["cr"], cnt))
+            if st.get("err") == "nil" and st["op"] == "acq" and st["cr"] < cnt:
+                return ("sem:nil-without-permit", "call %d (mode %s, limiter %s) returned nil from Acquire but holds no permit: "
+                        "ConcurrentRequests() is %d (max %d) where %d callers were told to go on"
+                        % (k, case["mode"], "without timeout" if case["timeout_ns"] <= 0 else "with timeout", st["cr"], case["max"], cnt))
             return ("sem:permit-count", "after call %d (%s %s) ConcurrentRequests() is %d, %d permits are accounted for"
                     % (k, st["op"], st.get("err", ""), st["cr"], cnt))
     if obs.get("stuck"):
@@ -820,7 +857,8 @@ def run(ctx):
     disagreements, oracle_hits = evaluate(ctx, cases, byid, hook)
     ctx.note("rule", "seeded random cases. sem: scripts over max in {1..8} x timeout {none,20..30ms} with blocked waiters, waiters that must "
              "time out while all permits are held, releases racing with timers, ends by response/error/panic; non-trivial = at least one "
-             "request had to wait. free: 100..500 calls of Acquire/Release or Invoke whose time-out (1ns) or cancellation (before, during, "
+             "request had to wait; family nocancel = limiter without timeout, full, callers queued with contexts already cancelled / "
+             "cancelled while queued / expiring while queued. free: 100..500 calls of Acquire/Release or Invoke whose time-out (1ns) or cancellation (before, during, "
              "or together with a release to a blocked caller) races with a send that can succeed; permit count checked after every call; "
              "non-trivial = both outcomes of the race occurred. rate/plug: 6..24 sequential calls, power-of-two and decimal intervals, maxPermits {Inf,0..}, timeouts, idle "
              "gaps, real waits or cancelled context; non-trivial = at least one call waited or was rejected. conc (with hook): forced "
